@@ -148,8 +148,9 @@ def run_case(c, binding, inputs):
             exec(stmt, ns)
         return ns
     try:
+        # the real run's setup comes last: setup lines may install stand-ins in the package (module globals)
+        ns_ref = fresh() if getattr(c, "ref", None) else {}
         ns_real = fresh()
-        ns_ref = fresh()
     except Exception as e:
         return {"status": "error", "why": f"inputs: {e!r}"}
     try:
